@@ -82,3 +82,85 @@ func rulesC03Round3(c *Ctx) {
 		c.Check(!oc.Empty() && hit == nil, "C03.txctx", fname(fn)+":transaction⇒overlay committed into the parent", pos, "every exit of Commit passes the overlay's Commit unless the context is not a transaction", "Commit of a transaction context can return without committing its overlay into the parent state (mode- or value-dependent shortcut): the enclosing context reads stale values after a nested transaction committed")
 	}
 }
+
+// c03NilKey (F35): a nil key is the empty key. Leaf nodes loaded from the database always carry a non-nil key, Key.Equal
+// tells nil from empty and the iterator uses a nil key for "not positioned"; Insert therefore never hands a possibly
+// nil key slice on to doInsert (it normalises it, as it does for a nil value).
+func c03NilKey(c *Ctx) {
+	fn := c.needFn("C03.sibling", "storage/mkvs.(*tree).Insert")
+	if fn == nil {
+		return
+	}
+	var kp *ssa.Parameter
+	for _, p := range fn.Params {
+		if pname(p) == "key" {
+			kp = p
+		}
+	}
+	calls := findCalls(fn, "storage/mkvs.(*tree).doInsert")
+	inst := fname(fn) + ":Insert(key=nil) is normalised to the empty key"
+	if kp == nil || len(calls) == 0 {
+		c.Fail("C03.sibling", inst, c.P.Pos(fn.Pos()), "key parameter or doInsert call not found (unresolved anchor)")
+		return
+	}
+	ok := true
+	site := c.P.InstrPos(calls[0])
+	for _, call := range calls {
+		args := call.Common().Args
+		if len(args) < 2 {
+			continue
+		}
+		k := args[len(args)-2]
+		if !nonNilNormalised(k, kp, call) {
+			ok = false
+			site = c.P.InstrPos(call)
+		}
+	}
+	c.Check(ok, "C03.sibling", inst, site, "the key handed to doInsert is the parameter only where it was tested non-nil (otherwise an empty slice)", "Insert hands its key parameter to doInsert without normalising nil to the empty key: until the leaf is reloaded from the database the nil key and the empty key are different keys (iteration skips the entry, Get([]byte{}) answers absence, Insert([]byte{}) after Insert(nil) panics) (F35)")
+}
+
+// nonNilNormalised: v is not the bare parameter p, or every way v can be p was taken under p != nil.
+func nonNilNormalised(v ssa.Value, p *ssa.Parameter, at ssa.Instruction) bool {
+	switch x := v.(type) {
+	case *ssa.Parameter:
+		if x != p {
+			return true
+		}
+		for _, h := range heldCondVals(at) {
+			if normCond(h.Cond, h.Pol) == "param:"+pname(p)+" != nil" {
+				return true
+			}
+		}
+		return false
+	case *ssa.Phi:
+		for i, e := range x.Edges {
+			if e != ssa.Value(p) {
+				if _, isPhi := e.(*ssa.Phi); isPhi && !nonNilNormalised(e, p, at) {
+					return false
+				}
+				continue
+			}
+			pred := x.Block().Preds[i]
+			iff := lastIfOf(pred)
+			okEdge := false
+			if iff != nil {
+				for si, s := range pred.Succs {
+					if s == x.Block() && normCond(iff.Cond, si == 0) == "param:"+pname(p)+" != nil" {
+						okEdge = true
+					}
+				}
+			}
+			if !okEdge {
+				return false
+			}
+		}
+		return true
+	case *ssa.Slice:
+		return nonNilNormalised(x.X, p, at)
+	case *ssa.ChangeType:
+		return nonNilNormalised(x.X, p, at)
+	case *ssa.Convert:
+		return nonNilNormalised(x.X, p, at)
+	}
+	return true
+}
